@@ -279,7 +279,7 @@ Definition binop_kind (o : binop) (k1 k2 : kind) : kind :=
   end.
 
 (* numpy broadcasting of two arrays of the same number of dimensions *)
-Definition bshape (s1 s2 : list nat) : list nat := map (fun p => Nat.max (fst p) (snd p)) (combine s1 s2).
+Definition bshape (s1 s2 : list nat) : list nat := map (fun p => if fst p =? 1 then snd p else fst p) (combine s1 s2).
 Definition bcoord (s : list nat) (c : list nat) : list nat := map (fun p => if fst p =? 1 then 0 else snd p) (combine s c).
 Definition np_binop (o : binop) (a b : nd) : res nd :=
   if forallb (fun p => (fst p =? snd p) || (fst p =? 1) || (snd p =? 1)) (combine (sh a) (sh b))
